@@ -1279,6 +1279,21 @@ mutant("c09-default-resolution-used", "C09", (D, """        x = np.atleast_2d(Op
         area = np.nancumsum""", """        x = np.atleast_2d(Op.midpoints(minimum, maximum))
         y = np.atleast_2d(term.membership(x))
         area = np.nancumsum"""), "S1/Bisector.defuzzify/x")
+mutant("c09-bisector-signed-distance", "C09", (D, "        area = np.abs((area / area[:, [-1]]) - 0.5)", "        area = (area / area[:, [-1]]) - 0.5"), "S5/Bisector.defuzzify/formula")
+mutant("c09-bisector-first-column", "C09", (D, "        area = np.abs((area / area[:, [-1]]) - 0.5)", "        area = np.abs((area / area[:, [0]]) - 0.5)"), "S5/Bisector.defuzzify/formula")
+mutant("c09-bisector-max-distance", "C09", (D, "        index = area == area.min(axis=1, keepdims=True)", "        index = area == area.max(axis=1, keepdims=True)"), "S5/Bisector.defuzzify/formula")
+mutant("c09-bisector-plain-mean", "C09", (D, "            z = np.nanmean(bisectors, axis=1).squeeze()", "            z = np.mean(bisectors, axis=1).squeeze()"), "S5/Bisector.defuzzify/formula")
+mutant("c09-bisector-where-exchanged", "C09", (D, "        bisectors = np.where(index, x, np.nan)", "        bisectors = np.where(index, np.nan, x)"), "S5/Bisector.defuzzify/formula")
+mutant("c09-centroid-squared-weights", "C09", (D, "        z = ((x * y).sum(axis=1) / y.sum(axis=1)).squeeze()", "        z = ((x * y * y).sum(axis=1) / y.sum(axis=1)).squeeze()"), "S5/Centroid.defuzzify/formula")
+mutant("c09-som-demorgan-wrong", "C09", [(D, """        y_max = (y > 0) & (y == y.max(axis=1, keepdims=True))
+        som = np.where(y_max, x, np.nan)""", """        y_max = ~(y > 0) | (y != y.max(axis=1, keepdims=True))
+        som = np.where(y_max, x, np.nan)""")], "R2/SmallestOfMaximum.defuzzify/mask")
+equivalent("c09-eq-bisector-half-minus", "C09", (D, "        area = np.abs((area / area[:, [-1]]) - 0.5)", "        area = np.abs(0.5 - area / area[:, -1:])"))
+equivalent("c09-eq-bisector-scaled", "C09", (D, "        area = np.abs((area / area[:, [-1]]) - 0.5)", "        area = np.abs((2.0 * area - area[:, [-1]]) / area[:, [-1]])"))
+equivalent("c09-eq-centroid-function-forms", "C09", (D, "        z = ((x * y).sum(axis=1) / y.sum(axis=1)).squeeze()", "        z = np.squeeze(np.divide(np.sum(np.multiply(y, x), axis=1), np.sum(y, 1)))"))
+equivalent("c09-eq-som-demorgan", "C09", [(D, """        y_max = (y > 0) & (y == y.max(axis=1, keepdims=True))
+        som = np.where(y_max, x, np.nan)""", """        y_max = ~(y > 0) | (y != np.max(y, axis=1, keepdims=True))
+        som = np.where(y_max, np.nan, x)""")])
 equivalent("c09-eq-renamed-locals", "C09", (D, """        y_max = (y > 0) & (y == y.max(axis=1, keepdims=True))
         mom = np.where(y_max, x, np.nan)
         with warnings.catch_warnings():
